@@ -21,6 +21,8 @@ use crate::world::World;
 pub enum TOp {
     Encrypt { len: usize },
     Sign { len: usize },
+    /// token refresh: decrypt the last own local token and seal the object that came out again
+    RefreshOwn,
     /// decrypt / verify the last token this thread produced
     DecryptOwn,
     VerifyOwn,
@@ -203,6 +205,16 @@ fn run_op(bk: Bk, keys: &mut Keys, shared: &Shared, st: &mut ThreadState, mail: 
             }
             res(&o, |t| t.clone())
         }
+        TOp::RefreshOwn => match st.last_local.clone() {
+            Some(tk) => {
+                let o = be.reseal(Purp::Local, &keys.local, &keys.local, &tk, PayloadKind::Raw, FootKind::Unit, aad, None, aad);
+                if let Out::Ok(t2) = &o {
+                    st.last_local = Some(t2.clone());
+                }
+                res(&o, |t| t.clone())
+            }
+            None => "skip".into(),
+        },
         TOp::DecryptOwn | TOp::DecryptBad { .. } | TOp::DecryptShared => {
             let tk = match op {
                 TOp::DecryptShared => Some(shared.tok_local.clone()),
